@@ -35,3 +35,10 @@ package expr
 //@ interface Expr.Shift
 //@   params this
 //@   pure
+
+// Update(b, params, metadata): writes only the first EncodedWidth bytes of b.
+//@ interface Expr.Update
+//@   params this, b, params, metadata
+//@   requires room: len(b) >= this.EncodedWidth()
+//@   modifies b[0:this.EncodedWidth()]
+//@   ensures remain: result0 == b[this.EncodedWidth():]
